@@ -53,6 +53,127 @@ Proof. destruct r1, r2, r3; simpl; try lia; tauto. Qed.
 Lemma boe_lt_bestv v r : lt_bestv v r = true -> better_or_equal (Some v) r.
 Proof. destruct r; simpl; [lia|auto]. Qed.
 
+(** ---- multiset facts about [update] and the LPT step on sums ---- *)
+
+Lemma cg_update_perm_split (f : Z -> Z) i l : (i < length l)%nat ->
+  exists r, Permutation l (nth i l 0 :: r) /\ Permutation (update i f l) (f (nth i l 0) :: r).
+Proof.
+  intros H. destruct (update_split i f l H) as (l1 & y & l2 & E1 & E2 & E3).
+  assert (Hn : nth i l 0 = y).
+  { rewrite E1, app_nth2 by lia. rewrite E2, Nat.sub_diag. reflexivity. }
+  exists (l1 ++ l2). rewrite Hn, E3. split.
+  - rewrite E1. symmetry. apply Permutation_middle.
+  - symmetry. apply Permutation_middle.
+Qed.
+
+(** adding to two bins of equal sum gives the same multiset of sums *)
+Lemma cg_update_same_value (f : Z -> Z) i j l : (i < length l)%nat -> (j < length l)%nat ->
+  nth i l 0 = nth j l 0 -> Permutation (update i f l) (update j f l).
+Proof.
+  intros Hi Hj E.
+  destruct (cg_update_perm_split f i l Hi) as (r1 & A1 & B1).
+  destruct (cg_update_perm_split f j l Hj) as (r2 & A2 & B2).
+  rewrite B1, B2, E. apply perm_skip. apply Permutation_cons_inv with (a := nth j l 0).
+  rewrite <- A2, <- E, <- A1. reflexivity.
+Qed.
+
+Definition cg_sumsq (l : list Z) : Z := zsum (map (fun z => z * z) l).
+
+Lemma cg_sumsq_perm l1 l2 : Permutation l1 l2 -> cg_sumsq l1 = cg_sumsq l2.
+Proof. intros P. apply zsum_perm, Permutation_map, P. Qed.
+
+Lemma cg_sumsq_update v i l : (i < length l)%nat ->
+  cg_sumsq (update i (fun z => z + v) l) = cg_sumsq l + 2 * v * nth i l 0 + v * v.
+Proof.
+  intros Hi. destruct (cg_update_perm_split (fun z => z + v) i l Hi) as (r & A1 & B1).
+  rewrite (cg_sumsq_perm _ _ B1). rewrite (cg_sumsq_perm _ _ A1) at 1.
+  unfold cg_sumsq. cbn [map zsum fold_right]. lia.
+Qed.
+
+(** conversely (for a non-zero amount) equal multisets mean equal bin sums *)
+Lemma cg_update_perm_inv v i j l : (i < length l)%nat -> (j < length l)%nat ->
+  Permutation (update i (fun z => z + v) l) (update j (fun z => z + v) l) ->
+  v = 0 \/ nth i l 0 = nth j l 0.
+Proof.
+  intros Hi Hj P. apply cg_sumsq_perm in P. rewrite !cg_sumsq_update in P by assumption.
+  assert (E : v * (nth i l 0 - nth j l 0) = 0) by lia.
+  apply Z.mul_eq_0 in E. lia.
+Qed.
+
+Lemma cg_update_add0 i l : update i (fun z => z + 0) l = l.
+Proof.
+  revert i; induction l as [|y t IH]; intros [|i]; cbn [update]; auto.
+  - f_equal. lia.
+  - f_equal. apply IH.
+Qed.
+
+Definition lpt_step (s : list Z) (v : Z) : list Z := update (argmin s) (fun z => z + v) s.
+
+Lemma cg_lpt_step_perm s1 s2 v : Permutation s1 s2 -> Permutation (lpt_step s1 v) (lpt_step s2 v).
+Proof.
+  intros P. unfold lpt_step. destruct s1 as [|a1 t1].
+  - apply Permutation_nil in P. subst s2. reflexivity.
+  - assert (N1 : a1 :: t1 <> []) by discriminate.
+    assert (N2 : s2 <> []).
+    { intros ->. apply Permutation_sym, Permutation_nil in P. discriminate. }
+    destruct (argmin_spec _ N1) as (L1 & M1 & _). destruct (argmin_spec _ N2) as (L2 & M2 & _).
+    set (i1 := argmin (a1 :: t1)) in *. set (i2 := argmin s2) in *.
+    assert (E : nth i1 (a1 :: t1) 0 = nth i2 s2 0).
+    { rewrite Forall_forall in M1, M2.
+      assert (H1 : In (nth i1 (a1 :: t1) 0) s2).
+      { eapply Permutation_in; [exact P|]. apply nth_In. exact L1. }
+      assert (H2 : In (nth i2 s2 0) (a1 :: t1)).
+      { eapply Permutation_in; [symmetry; exact P|]. apply nth_In. exact L2. }
+      apply M2 in H1. apply M1 in H2. lia. }
+    destruct (cg_update_perm_split (fun z => z + v) i1 _ L1) as (r1 & A1 & B1).
+    destruct (cg_update_perm_split (fun z => z + v) i2 _ L2) as (r2 & A2 & B2).
+    rewrite B1, B2, E. apply perm_skip. apply Permutation_cons_inv with (a := nth i2 s2 0).
+    rewrite <- A2, <- E, <- A1. exact P.
+Qed.
+
+(** on an ascending list the LPT step is (up to order) adding to position 0 *)
+Lemma cg_lpt_step_sorted s v : StronglySorted Z.le s ->
+  Permutation (lpt_step s v) (update O (fun z => z + v) s).
+Proof.
+  intros Hs. unfold lpt_step. destruct s as [|a t]; [reflexivity|].
+  assert (N : a :: t <> []) by discriminate.
+  destruct (argmin_spec _ N) as (L & M & _).
+  apply cg_update_same_value; [exact L|cbn [length]; lia|].
+  inversion Hs as [|a' t' Ht Ha]; subst.
+  assert (H1 : nth (argmin (a :: t)) (a :: t) 0 <= a).
+  { rewrite Forall_forall in M. apply M. left. reflexivity. }
+  assert (H2 : a <= nth (argmin (a :: t)) (a :: t) 0).
+  { destruct (argmin (a :: t)) as [|j] eqn:Ej; cbn [nth]; [lia|].
+    rewrite Forall_forall in Ha. apply Ha. apply nth_In. cbn [length] in L. lia. }
+  change (nth O (a :: t) 0) with a. lia.
+Qed.
+
+Lemma cg_rev_last {T} (l : list T) d : l <> [] -> exists l', rev l = last l d :: l'.
+Proof.
+  intros H. exists (rev (removelast l)).
+  rewrite (app_removelast_last d H) at 1. rewrite rev_app_distr. reflexivity.
+Qed.
+
+Lemma cg_last_In {T} (l : list T) d : l <> [] -> In (last l d) l.
+Proof.
+  intros H. rewrite (app_removelast_last d H) at 2. apply in_or_app. right. left. reflexivity.
+Qed.
+
+Lemma cg_zlist_eqb_eq l1 : forall l2, zlist_eqb l1 l2 = true -> l1 = l2.
+Proof.
+  induction l1 as [|x t IH]; intros [|y u] H; cbn [zlist_eqb] in H; try discriminate; auto.
+  apply andb_true_iff in H as [H1 H2]. apply Z.eqb_eq in H1. subst y. f_equal. apply IH. exact H2.
+Qed.
+
+Lemma cg_sorted_nth_le s : StronglySorted Z.le s -> forall i j, (i <= j)%nat -> (j < length s)%nat ->
+  nth i s 0 <= nth j s 0.
+Proof.
+  induction 1 as [|a t Ht IH Ha]; intros i j Hij Hj; cbn [length] in Hj; [lia|].
+  destruct i as [|i], j as [|j]; cbn [nth]; try lia.
+  - rewrite Forall_forall in Ha. apply Ha. apply nth_In. lia.
+  - apply IH; lia.
+Qed.
+
 Section CGProofs.
   Context {A : Type} (valueof : A -> Z).
 
@@ -855,7 +976,6 @@ Section CGProofs.
   (** ================= 4. a run without limit always returns a result (C01) ================= *)
   Section Total.
     Variables (keep : bool) (o : objective) (flags : cg_flags) (k : nat) (glb : option Z).
-    Hypothesis Hk : (1 <= k)%nat.
     Notation explore := (cg_explore valueof keep o flags None k glb).
     Notation children := (cg_children valueof keep o flags k).
 
@@ -909,6 +1029,8 @@ Section CGProofs.
       cbn [cg_bestv]. rewrite Hb. cbn [lt_bestv cg_best]. discriminate.
     Qed.
 
+    Hypothesis Hk : (1 <= k)%nat.
+
     Lemma cg_total_explore : forall rest depth b st,
       cg_stop st = false -> cg_bestv st = None -> cg_seen_le depth (cg_seen st) ->
       cg_best (explore rest depth b st) <> None.
@@ -942,6 +1064,240 @@ Section CGProofs.
   Theorem cg_total : forall o flags k items, (1 <= k)%nat ->
     exists b, cg valueof true o flags None k items = Some b.
   Proof. intros o flags k items. apply cg_total_keep. Qed.
+
+  (** ================= 5. the first solution is the LPT one (C11) ================= *)
+  Definition lpt_sums (s : list Z) (rest : list A) : list Z :=
+    fold_left (fun s0 x => lpt_step s0 (valueof x)) rest s.
+
+  Lemma cg_lpt_sums_perm rest : forall s1 s2, Permutation s1 s2 ->
+    Permutation (lpt_sums s1 rest) (lpt_sums s2 rest).
+  Proof.
+    unfold lpt_sums. induction rest as [|x t IH]; intros s1 s2 P; cbn [fold_left]; [exact P|].
+    apply IH. apply cg_lpt_step_perm. exact P.
+  Qed.
+
+  Lemma cg_greedy_sums keep rest : forall b : bins A,
+    sums (fold_left (greedy_step valueof keep) rest b) = lpt_sums (sums b) rest.
+  Proof.
+    unfold lpt_sums. induction rest as [|x t IH]; intros b; cbn [fold_left]; [reflexivity|].
+    rewrite IH. f_equal. unfold greedy_step, lpt_step. apply add_item_sums.
+  Qed.
+
+  Section First.
+    Variables (keep : bool) (o : objective) (flags : cg_flags) (k : nat) (glb : option Z).
+    Hypothesis Hk : (1 <= k)%nat.
+    Hypothesis Hh3 : use_heuristic_3 flags && objective_eqb o MinLargest = false.
+    Notation explore := (cg_explore valueof keep o flags None k glb).
+    Notation children := (cg_children valueof keep o flags k).
+
+    Lemma cg_child_sums (b : bins A) x bi :
+      Permutation (sums (cg_child keep b x bi)) (update bi (fun z => z + valueof x) (sums b)).
+    Proof. unfold cg_child. rewrite sort_bins_sums_perm, add_item_sums. reflexivity. Qed.
+
+    Lemma cg_child_sorted (b : bins A) x bi : StronglySorted Z.le (sums (cg_child keep b x bi)).
+    Proof. apply sort_bins_sorted. Qed.
+
+    Lemma cg_child_length (b : bins A) x bi : length (cg_child keep b x bi) = length b.
+    Proof. unfold cg_child. rewrite sort_bins_length. apply add_item_length. Qed.
+
+    Section Last.
+      Variables (b : bins A) (x : A) (R : Z) (depth : nat).
+      Hypothesis Hlen : length b = k.
+      Hypothesis Hsorted : StronglySorted Z.le (sums b).
+
+      Lemma cg_sums_length : length (sums b) = k.
+      Proof. unfold sums. rewrite map_length. exact Hlen. Qed.
+
+      (** c has the sums of "parent plus x in a least-loaded bin" *)
+      Definition cg_minq (c : bins A) : Prop :=
+        Permutation (sums c) (update O (fun z => z + valueof x) (sums b)).
+
+      (** loop invariant of the sibling generation when valueof x <> 0: the siblings recorded
+          so far were made from bins whose sum is at least [prev], and the indices still to
+          come have sums at most [prev] *)
+      Definition cg_sib_inv (n : nat) (prev : option Z) (seen : list (nat * list Z)) : Prop :=
+        (forall ns, In (S depth, ns) seen ->
+           exists j p, prev = Some p /\ (j < k)%nat /\ p <= nth j (sums b) 0 /\
+                       Permutation ns (update j (fun z => z + valueof x) (sums b))) /\
+        (forall p, prev = Some p -> forall i, (i < n)%nat -> nth i (sums b) 0 <= p).
+
+      Lemma cg_children_last_nz : valueof x <> 0 -> forall n prev seen,
+        (n <= k)%nat -> (1 <= n)%nat -> cg_sib_inv n prev seen ->
+        (fst (children (rev (range n)) b (sums b) x R depth prev None seen) <> [] /\
+         cg_minq (last (fst (children (rev (range n)) b (sums b) x R depth prev None seen)) []))
+        \/ (fst (children (rev (range n)) b (sums b) x R depth prev None seen) = [] /\
+            prev = Some (nth O (sums b) 0)).
+      Proof.
+        intros Hv. pose proof cg_sums_length as Hsl.
+        induction n as [|n IH]; intros prev seen Hnk Hn1 (Hi1 & Hi2); [lia|].
+        rewrite cg_rev_range_S, cg_children_cons. cbv zeta.
+        destruct (cg_prev_skip prev (nth n (sums b) 0)) eqn:Ep.
+        - (* same sum as the previous bin: skipped *)
+          destruct prev as [p|]; cbn [cg_prev_skip] in Ep; [|discriminate].
+          apply Z.eqb_eq in Ep. destruct n as [|n'].
+          + right. change (rev (range 0)) with (@nil nat). cbn [cg_children fst].
+            split; [reflexivity|]. f_equal. lia.
+          + apply IH; [lia|lia|]. split; [exact Hi1|].
+            intros p' Hp' i Hi. apply (Hi2 p' Hp'). lia.
+        - rewrite cg_pruned_none.
+          destruct (cg_seen_skip flags depth (sums (cg_child keep b x n)) seen) eqn:Esk.
+          + (* impossible: an earlier sibling came from a strictly larger bin *)
+            exfalso. unfold cg_seen_skip in Esk. apply andb_true_iff in Esk as [_ Esk].
+            apply existsb_exists in Esk as ([d ns] & He & Hee).
+            unfold state_eqb in Hee. cbn [fst snd] in Hee.
+            apply andb_true_iff in Hee as [H1 H2].
+            apply Nat.eqb_eq in H1. apply cg_zlist_eqb_eq in H2. subst d ns.
+            destruct (Hi1 _ He) as (j & p & Hp & Hj & Hpj & Hperm). subst prev.
+            cbn [cg_prev_skip] in Ep. apply Z.eqb_neq in Ep.
+            pose proof (Hi2 p eq_refl n ltac:(lia)) as Hn.
+            rewrite cg_child_sums in Hperm.
+            apply cg_update_perm_inv in Hperm; [|lia|lia]. lia.
+          + (* generated *)
+            assert (Hinv' : cg_sib_inv n (Some (nth n (sums b) 0))
+                              (cg_seen_add flags depth (sums (cg_child keep b x n)) seen)).
+            { split.
+              - intros ns Hin.
+                assert (Hold : In (S depth, ns) seen ->
+                  exists j p, Some (nth n (sums b) 0) = Some p /\ (j < k)%nat /\
+                              p <= nth j (sums b) 0 /\
+                              Permutation ns (update j (fun z => z + valueof x) (sums b))).
+                { intros Hin'. destruct (Hi1 _ Hin') as (j & p & Hp & Hj & Hpj & Hperm).
+                  exists j, (nth n (sums b) 0). split; [reflexivity|]. split; [exact Hj|].
+                  split; [|exact Hperm].
+                  pose proof (Hi2 p Hp n ltac:(lia)) as Hn. lia. }
+                unfold cg_seen_add in Hin. destruct (use_set_of_seen_states flags); [|auto].
+                destruct Hin as [Hin|Hin]; [|auto].
+                inversion Hin; subst ns. exists n, (nth n (sums b) 0).
+                split; [reflexivity|]. split; [lia|]. split; [lia|]. apply cg_child_sums.
+              - intros p' Hp' i Hi. inversion Hp'; subst p'.
+                apply cg_sorted_nth_le; [exact Hsorted|lia|lia]. }
+            cbn [fst snd]. destruct n as [|n'].
+            * left. change (rev (range 0)) with (@nil nat). cbn [cg_children fst last].
+              split; [discriminate|]. apply cg_child_sums.
+            * destruct (IH _ _ ltac:(lia) ltac:(lia) Hinv') as [[Hne Hq]|[He Hp]].
+              -- left. split; [discriminate|].
+                 destruct (fst (children (rev (range (S n'))) b (sums b) x R depth _ None _))
+                   as [|c0 l0]; [contradiction|]. exact Hq.
+              -- left. rewrite He. split; [discriminate|]. cbn [last]. unfold cg_minq.
+                 rewrite cg_child_sums. apply cg_update_same_value; [lia|lia|].
+                 inversion Hp. reflexivity.
+      Qed.
+
+      Lemma cg_children_all_z idxs cur prev bestv seen : valueof x = 0 ->
+        Forall cg_minq (fst (children idxs b cur x R depth prev bestv seen)).
+      Proof.
+        intros Hv. eapply Forall_impl; [|apply cg_children_spec]. cbv beta.
+        intros c (bi & _ & ->). unfold cg_minq. rewrite cg_child_sums, Hv, !cg_update_add0.
+        reflexivity.
+      Qed.
+
+      (** while there is no incumbent, the child explored first is sum-equivalent to the LPT step *)
+      Lemma cg_children_last seen : cg_seen_le depth seen ->
+        fst (children (rev (range k)) b (sums b) x R depth None None seen) <> [] /\
+        cg_minq (last (fst (children (rev (range k)) b (sums b) x R depth None None seen)) []).
+      Proof.
+        intros Hs.
+        assert (Hne : fst (children (rev (range k)) b (sums b) x R depth None None seen) <> []).
+        { destruct (cg_rev_range_pos k Hk) as (bi & idxs & Er). rewrite Er.
+          apply cg_children_nonempty; assumption. }
+        split; [exact Hne|]. destruct (Z.eq_dec (valueof x) 0) as [Hv|Hv].
+        - pose proof (cg_children_all_z (rev (range k)) (sums b) None None seen Hv) as Hall.
+          rewrite Forall_forall in Hall. apply Hall. apply cg_last_In. exact Hne.
+        - destruct (cg_children_last_nz Hv k None seen) as [[_ Hq]|[_ Hp]];
+            [lia|exact Hk| |exact Hq|discriminate].
+          split.
+          + intros ns Hin. unfold cg_seen_le in Hs. rewrite Forall_forall in Hs.
+            apply Hs in Hin. cbn [fst] in Hin. lia.
+          + intros p Hp. discriminate.
+      Qed.
+    End Last.
+
+    Lemma cg_h3_off rest cur : cg_h3_cond o flags rest cur = false.
+    Proof. unfold cg_h3_cond. rewrite Hh3. reflexivity. Qed.
+
+    Lemma cg_first_leaf (b : bins A) st : cg_stop st = false -> cg_bestv st = None ->
+      cg_first st = None -> cg_first (cg_leaf o None glb b st) = Some b.
+    Proof.
+      intros Hs Hb Hf. rewrite cg_leaf_eq, cg_enter_nolimit by exact Hs.
+      cbn [cg_bestv cg_first]. rewrite Hb, Hf. reflexivity.
+    Qed.
+
+    Lemma cg_first_explore : forall rest depth b st,
+      cg_stop st = false -> cg_bestv st = None -> cg_first st = None ->
+      cg_seen_le depth (cg_seen st) -> length b = k -> StronglySorted Z.le (sums b) ->
+      exists f, cg_first (explore rest depth b st) = Some f /\
+                Permutation (sums f) (lpt_sums (sums b) rest).
+    Proof.
+      induction rest as [|x t IH]; intros depth b st Hs Hb Hf Hseen Hlen Hsorted.
+      - rewrite cg_explore_nil. exists b. split; [apply cg_first_leaf; assumption|reflexivity].
+      - rewrite cg_explore_cons, cg_enter_nolimit by exact Hs. rewrite cg_h3_off.
+        cbv zeta. cbn [cg_best cg_bestv cg_seen cg_ticks cg_first]. rewrite Hb.
+        destruct (cg_children_last b x (zsum (map valueof t)) depth Hlen Hsorted (cg_seen st) Hseen)
+          as [Hne Hq].
+        assert (Hle : cg_seen_le (S depth)
+                        (snd (children (rev (range k)) b (sums b) x (zsum (map valueof t)) depth
+                                None None (cg_seen st)))).
+        { apply cg_children_seen_le. apply cg_seen_le_S. exact Hseen. }
+        pose proof (cg_last_In (T := bins A) _ [] Hne) as Hin.
+        pose proof (cg_children_spec keep o flags k (rev (range k)) b (sums b) x
+                      (zsum (map valueof t)) depth None None (cg_seen st)) as Hspec.
+        rewrite Forall_forall in Hspec. destruct (Hspec _ Hin) as (bi & _ & Hc).
+        destruct (cg_rev_last (T := bins A) _ [] Hne) as (cs' & Er). rewrite Er. cbn [fold_left].
+        set (c := last (fst (children (rev (range k)) b (sums b) x (zsum (map valueof t)) depth
+                               None None (cg_seen st))) []) in *.
+        destruct (IH (S depth) c
+                     (mk_cg (cg_best st) None
+                        (snd (children (rev (range k)) b (sums b) x (zsum (map valueof t)) depth
+                                None None (cg_seen st)))
+                        false (S (cg_ticks st)) (cg_first st)))
+          as (f & Ef & Pf).
+        + reflexivity.
+        + reflexivity.
+        + exact Hf.
+        + exact Hle.
+        + rewrite Hc, cg_child_length. exact Hlen.
+        + rewrite Hc. apply cg_child_sorted.
+        + exists f. split; [apply cg_first_keep_fold; exact Ef|].
+          rewrite Pf. unfold lpt_sums at 2. cbn [fold_left]. apply cg_lpt_sums_perm.
+          unfold cg_minq in Hq. rewrite Hq. symmetry. apply cg_lpt_step_sorted. exact Hsorted.
+    Qed.
+  End First.
+
+  Lemma cg_repeat0_sorted n : StronglySorted Z.le (repeat 0 n).
+  Proof.
+    induction n as [|n IH]; cbn [repeat]; constructor; [exact IH|].
+    apply Forall_forall. intros z Hz. apply repeat_spec in Hz. lia.
+  Qed.
+
+  (** Statement as requested but with heuristic 3 inactive (it is active only for MinLargest);
+      with heuristic 3 active the statement is false, see cg_first_h3_counterexample below. *)
+  Theorem cg_first_is_lpt_keep : forall keep o flags limit k items f, (1 <= k)%nat ->
+    use_heuristic_3 flags && objective_eqb o MinLargest = false ->
+    cg_first (cg_run valueof keep o flags limit k items) = Some f ->
+    Permutation (sums f) (sums (greedy valueof keep k items)).
+  Proof.
+    intros keep o flags limit k items f Hk Hh3 E.
+    apply cg_first_limit in E. rewrite cg_run_eq in E.
+    destruct (cg_first_explore keep o flags k
+                (lower_bound o (repeat 0 k) (zsum (map valueof (sort_desc valueof items))) true)
+                Hk Hh3 (sort_desc valueof items) O (new_bins k) (cg_init_state flags k))
+      as (f' & Ef & Pf).
+    - reflexivity.
+    - reflexivity.
+    - reflexivity.
+    - unfold cg_init_state, cg_seen_le. cbn [cg_seen].
+      destruct (use_set_of_seen_states flags); repeat constructor.
+    - apply new_bins_length.
+    - rewrite new_bins_sums. apply cg_repeat0_sorted.
+    - rewrite E in Ef. inversion Ef; subst f'. rewrite Pf.
+      unfold greedy. rewrite cg_greedy_sums. reflexivity.
+  Qed.
+
+  Theorem cg_first_is_lpt : forall o flags limit k items f, (1 <= k)%nat ->
+    use_heuristic_3 flags && objective_eqb o MinLargest = false ->
+    cg_first (cg_run valueof true o flags limit k items) = Some f ->
+    Permutation (sums f) (sums (greedy valueof true k items)).
+  Proof. intros o flags limit k items f. apply cg_first_is_lpt_keep. Qed.
 End CGProofs.
 
 (** non-vacuity / regression: these inputs returned no result before the repairs *)
@@ -952,3 +1308,26 @@ Proof. eexists. vm_compute. reflexivity. Qed.
 Example cg_total_ex2 :
   exists b, cg (fun v => v) true MaxSmallest (mk_flags true true false true) None 1 [1; 2] = Some b.
 Proof. eexists. vm_compute. reflexivity. Qed.
+
+(** With heuristic 3 active (objective MinLargest) the first solution is NOT the LPT one:
+    after 10 is placed, heuristic 3 puts both 3s into the same bin. *)
+Example cg_first_h3_counterexample :
+  option_map (@sums Z) (cg_first (cg_run (fun v => v) true MinLargest (mk_flags false false true false)
+                                   None 3 [10; 3; 3])) = Some [0; 6; 10]
+  /\ sums (greedy (fun v => v) true 3 [10; 3; 3]) = [10; 3; 3].
+Proof. vm_compute. split; reflexivity. Qed.
+
+Print Assumptions cg_safe.
+Print Assumptions cg_first_safe.
+Print Assumptions cg_bestv_spec.
+Print Assumptions cg_bv_ok_explore.
+Print Assumptions cg_bestv_mono.
+Print Assumptions cg_monotone.
+Print Assumptions cg_monotone_none.
+Print Assumptions cg_limit_prefix.
+Print Assumptions cg_limit_none.
+Print Assumptions cg_total.
+Print Assumptions cg_total_keep.
+Print Assumptions cg_first_is_lpt.
+Print Assumptions cg_erase.
+Print Assumptions cg_erase_run.
